@@ -1,3 +1,4 @@
+import Swat4.Lemmas.FactsExtra01
 import Swat4.Lemmas.Browsing
 import Swat4.Lemmas.BrowserReqBridge
 import Swat4.Properties.C02
